@@ -81,7 +81,7 @@ namespace trompeloeil {
   {
   public:
     sequence_type& operator*() { return *obj; }
-    bool is_completed() const { TROMPELOEIL_VERIF_EVENT("is_completed", this, 1); return obj->is_completed(); }
+    bool is_completed() const { auto lock = get_lock(); TROMPELOEIL_VERIF_EVENT("is_completed", this, 1); return obj->is_completed(); }
   private:
     std::unique_ptr<sequence_type> obj{detail::make_unique<sequence_type>()};
   };
